@@ -141,6 +141,7 @@ mutual
     | .list _ xs => litOks xs
     | .set t xs => goodSet t xs && litOks xs
     | .map k _ xs => (!simpleComparable k || goodMap k xs) && litOks xs
+    | .bigMap k _ xs => (!simpleComparable k || goodMap k xs) && litOks xs
     | .lam _ _ body => literalsOk body
     | _ => true
   def litOks : List Val → Bool
@@ -175,6 +176,35 @@ def updateTy : Ty → Ty → Ty → Option Ty
   | k, .bool, .set t => if k = t ∧ simpleComparable t then some (.set t) else none
   | k, .option v', .map k' v => if k = k' ∧ v' = v ∧ simpleComparable k' then some (.map k' v) else none
   | _, _, _ => none
+
+/-! Big maps: MEM / GET / UPDATE / GET_AND_UPDATE are typed on `big_map k v` as on `map k v`. -/
+def memTyB : Ty → Ty → Option Ty
+  | k, .bigMap k' _ => if k = k' ∧ simpleComparable k' then some .bool else none
+  | k, m => memTy k m
+
+def getTyB : Ty → Ty → Option Ty
+  | k, .bigMap k' v => if k = k' ∧ simpleComparable k' then some (.option v) else none
+  | k, m => getTy k m
+
+def updateTyB : Ty → Ty → Ty → Option Ty
+  | k, .option v', .bigMap k' v => if k = k' ∧ v' = v ∧ simpleComparable k' then some (.bigMap k' v) else none
+  | k, o, m => updateTy k o m
+
+/-- the value type of a big map holds no big map and no operation -/
+def bigMapValue : Ty → Bool
+  | .bigMap _ _ | .operation => false
+  | .contract _ | .lambda _ _ => true
+  | .option t | .list t | .set t => bigMapValue t
+  | .or a b | .pair a b | .map a b => bigMapValue a && bigMapValue b
+  | _ => true
+
+/-- the types a `PUSH` can carry: no big map, no contract handle, no operation (inside a `lambda` type they are allowed) -/
+def pushable : Ty → Bool
+  | .bigMap _ _ | .operation | .contract _ => false
+  | .lambda _ _ => true
+  | .option t | .list t | .set t => pushable t
+  | .or a b | .pair a b | .map a b => pushable a && pushable b
+  | _ => true
 
 /-- join of two branch results -/
 def join : TRes → TRes → Option TRes
@@ -227,6 +257,20 @@ def packable : Ty → Bool
 
 def packTy (a : Ty) : Option Ty := if packable a then some .bytes else none
 
+/-- the types `UNPACK` is modelled for: the packable types of the model whose sets and maps have *simple* comparable keys (the
+order of the other comparable types is property C03's subject; a set / map literal has to be checked for strictly ascending
+keys when it is read) -/
+def unpackable : Ty → Bool
+  | .unit | .bool | .int | .nat | .mutez | .timestamp | .string | .bytes => true
+  | .option t | .list t => unpackable t
+  | .set t => simpleComparable t
+  | .or a b | .pair a b => unpackable a && unpackable b
+  | .map k v => simpleComparable k && unpackable v
+  | _ => false
+
+/-- `UNPACK t :: bytes : S ⇒ option t : S` -/
+def unpackTy (t : Ty) (a : Ty) : Option Ty := if a = .bytes ∧ unpackable t = true then some (.option t) else none
+
 /-- extension 2, the rules of the form `i :: a : S ⇒ r : S`: result type for the operand type -/
 def unTy (i : Instr) (a : Ty) : Option Ty :=
   match i with
@@ -240,11 +284,17 @@ def unTy (i : Instr) (a : Ty) : Option Ty :=
   | .SET_DELEGATE => setDelegateTy a
   | .EMIT _ t => emitTy t a
   | .PACK => packTy a
+  | .UNPACK t => unpackTy t a
   | _ => none
 
 /-- TRANSFER_TOKENS: `p : mutez : contract p : S ⇒ operation : S` -/
 def transferTokensTy : Ty → Ty → Ty → Option Ty
   | p, .mutez, .contract t => if p = t then some .operation else none
+  | _, _, _ => none
+
+/-- CHECK_SIGNATURE: `key : signature : bytes : S ⇒ bool : S` -/
+def checkSignatureTy : Ty → Ty → Ty → Option Ty
+  | .key, .signature, .bytes => some .bool
   | _, _, _ => none
 
 /-- the rules of extension 2 -/
@@ -253,6 +303,10 @@ def stepExt : Instr → List Ty → Option TRes
   | .SELF _ t, s => some (.ok (.contract t :: s))      -- `t`: the type of that entrypoint of the contract's parameter
   | .TRANSFER_TOKENS, a :: b :: c :: s => (transferTokensTy a b c).map fun t => .ok (t :: s)
   | .TRANSFER_TOKENS, _ => none
+  | .CHECK_SIGNATURE, a :: b :: c :: s => (checkSignatureTy a b c).map fun t => .ok (t :: s)
+  | .CHECK_SIGNATURE, _ => none
+  -- `EMPTY_BIG_MAP k v`: a (simple) comparable key type, a value type without big maps and operations
+  | .EMPTY_BIG_MAP k v, s => if simpleComparable k && bigMapValue v then some (.ok (.bigMap k v :: s)) else none
   | i, a :: s => (unTy i a).map fun t => .ok (t :: s)
   | _, [] => none
 
@@ -272,7 +326,7 @@ def step : Instr → List Ty → Option TRes
   | .SWAP, a :: b :: s => some (.ok (b :: a :: s))
   | .DIG n, s => (s[n]?).map fun t => .ok (t :: (s.take n ++ s.drop (n + 1)))
   | .DUG n, t :: s => if n ≤ s.length then some (.ok (s.take n ++ t :: s.drop n)) else none
-  | .APPLY, a :: .lambda (.pair a' b) c :: s => if a = a' then some (.ok (.lambda b c :: s)) else none
+  | .APPLY, a :: .lambda (.pair a' b) c :: s => if a = a' ∧ pushable a = true then some (.ok (.lambda b c :: s)) else none
   | .FAILWITH, _ :: _ => some .failed
   | .UNIT, s => some (.ok (.unit :: s))
   | .PAIR, a :: b :: s => some (.ok (.pair a b :: s))
@@ -292,10 +346,10 @@ def step : Instr → List Ty → Option TRes
   | .EMPTY_MAP k v, s => some (.ok (.map k v :: s))
   | .EMPTY_SET t, s => if simpleComparable t then some (.ok (.set t :: s)) else none
   | .SIZE, .set _ :: s => some (.ok (.nat :: s))
-  | .MEM, a :: b :: s => (memTy a b).map fun t => .ok (t :: s)
-  | .GET, a :: b :: s => (getTy a b).map fun t => .ok (t :: s)
-  | .UPDATE, a :: b :: c :: s => (updateTy a b c).map fun t => .ok (t :: s)
-  | .GET_AND_UPDATE, a :: b :: c :: s => (updateTy a b c).bind fun t => (getTy a t).map fun o => .ok (o :: t :: s)
+  | .MEM, a :: b :: s => (memTyB a b).map fun t => .ok (t :: s)
+  | .GET, a :: b :: s => (getTyB a b).map fun t => .ok (t :: s)
+  | .UPDATE, a :: b :: c :: s => (updateTyB a b c).map fun t => .ok (t :: s)
+  | .GET_AND_UPDATE, a :: b :: c :: s => (updateTyB a b c).bind fun t => (getTyB a t).map fun o => .ok (o :: t :: s)
   | .SIZE, .string :: s | .SIZE, .bytes :: s | .SIZE, .list _ :: s | .SIZE, .map _ _ :: s => some (.ok (.nat :: s))
   | .ADD, a :: b :: s => (addTy a b).map fun t => .ok (t :: s)
   | .SUB, a :: b :: s => (subTy a b).map fun t => .ok (t :: s)
@@ -332,7 +386,7 @@ mutual
   /-- `strictMap`: additionally require MAP bodies to preserve the element type -/
   def typeInstr (strictMap : Bool) : Instr → List Ty → Option TRes
     | .seq is, s => typeSeq strictMap is s
-    | .PUSH t v, s => if checkVal strictMap v t then some (.ok (t :: s)) else none
+    | .PUSH t v, s => if pushable t && checkVal strictMap v t then some (.ok (t :: s)) else none
     | .LAMBDA a b body, s =>
       match typeInstr strictMap body [a] with
       | some (.ok [b']) => if b' = b then some (.ok (.lambda a b :: s)) else none
@@ -420,6 +474,7 @@ mutual
     | .atom .chainId _, .chainId => true
     | .atom .keyHash _, .keyHash => true
     | .atom .key _, .key => true
+    | .atom .signature _, .signature => true
     | .contract t' _, .contract t => t' = t
     | .opTransfer _ _ _ _ p pty, .operation => checkVal strictMap p pty
     | .opDelegate _ _, .operation => true
@@ -432,6 +487,7 @@ mutual
     | .list t' xs, .list t => t' = t && checkVals strictMap xs t
     | .map k' v' xs, .map k v => k' = k && v' = v && checkVals strictMap xs (.pair k v)
     | .set t' xs, .set t => t' = t && checkVals strictMap xs t
+    | .bigMap k' v' xs, .bigMap k v => k' = k && v' = v && checkVals strictMap xs (.pair k v)
     | .lam a' b' body, .lambda a b =>
       a' = a && b' = b &&
         (match typeInstr strictMap body [a] with
